@@ -1213,6 +1213,9 @@ class Walker:
                 else:
                     res.append((s, k, p))
             return res + done
+        lazy = self._lazy_map_loop(n, st)
+        if lazy is not None:
+            return lazy
         for s, k, it in self.expr(n.iter, st):
             if k != "val":
                 outs.append((s, k, it))
@@ -1360,6 +1363,36 @@ class Walker:
             if ts is None or not ts <= (CONTAINERS | {"generator"}):
                 self.rz(outs, s, node, "TypeError", "iteration over a value that may not be iterable", [("nottype", it, CONTAINERS)])
         return base, mode
+
+    def _lazy_map_loop(self, n, st):
+        """for y in map(f, xs): body  is  for x in xs: y = f(x); body  (map is lazy: f runs on
+        each element right before the body does).  f is evaluated once, before the loop."""
+        it = n.iter
+        if not (isinstance(it, ast.Call) and isinstance(it.func, ast.Name) and it.func.id == "map" and len(it.args) == 2 and not it.keywords and not any(isinstance(a, ast.Starred) for a in it.args)):
+            return None
+        if "map" in st.env or self.prog.resolve_dotted(self.mod, ["map"])[0][0] != "builtin":
+            return None
+        outs = []
+        fn_name, el_name = "$mapf_%d_%d" % (n.lineno, n.col_offset), "$mapx_%d_%d" % (n.lineno, n.col_offset)
+        for s, k, fv in self.expr(it.args[0], st):
+            if k != "val":
+                outs.append((s, k, fv))
+                continue
+            s = s.copy()
+            s.env[fn_name] = fv
+            call = ast.Call(func=ast.Name(id=fn_name, ctx=ast.Load()), args=[ast.Name(id=el_name, ctx=ast.Load())], keywords=[])
+            assign = ast.Assign(targets=[n.target], value=call)
+            sub = ast.For(target=ast.Name(id=el_name, ctx=ast.Store()), iter=it.args[1], body=[assign] + list(n.body), orelse=n.orelse)
+            for x in ast.walk(sub):
+                if not hasattr(x, "lineno"):
+                    ast.copy_location(x, it)
+            ast.copy_location(sub, n)
+            ast.fix_missing_locations(sub)
+            for s2, k2, p2 in self.s_For(sub, s):
+                s2.env.pop(fn_name, None)
+                s2.env.pop(el_name, None)
+                outs.append((s2, k2, p2))
+        return outs
 
     def _loop(self, n, s, it, target, body, orelse):
         outs = []
@@ -1935,6 +1968,8 @@ class Walker:
         """value of a class-level constant `NAME = <static expression>` (no annotation-only fields)"""
         if ci.is_enum:
             return None
+        if name == "_fields" and ci.is_namedtuple and not ci.is_dataclass:
+            return ("lit", "tuple", tuple(C(n) for n, _d in ci.nt_fields()), None)
         for st_ in ci.node.body:
             tgt = None
             if isinstance(st_, ast.Assign) and len(st_.targets) == 1 and isinstance(st_.targets[0], ast.Name):
